@@ -219,3 +219,25 @@ Proof.
 Qed.
 Lemma abs_nat_ok a : word a -> a = wrap_u (Z.abs a).
 Proof. intros Ha. rewrite Z.abs_eq by (unfold word in *; lia). symmetry. apply wrap_u_id. assumption. Qed.
+
+Lemma to_s_0 : to_s 0 = 0. Proof. reflexivity. Qed.
+Lemma word_0 : word 0. Proof. unfold word, M64. lia. Qed.
+Lemma ilt_s_zero_false w : word w -> (0 <= to_s w \/ w < H64) -> ilt_s w 0 = false.
+Proof.
+  intros Hw [H|H]; unfold ilt_s; rewrite to_s_0.
+  - lia.
+  - rewrite to_s_small by (unfold word in Hw; lia). unfold word in Hw. lia.
+Qed.
+Lemma ine_zero_s w : word w -> ine w 0 = negb (to_s w =? 0).
+Proof. intros. rewrite (ine_s_ok w 0 H word_0), to_s_0. reflexivity. Qed.
+Lemma ine_zero_u w : ine 0 w = negb (w =? 0).
+Proof. unfold ine. rewrite Z.eqb_sym. reflexivity. Qed.
+(* mixed nat/int equality, the nat below 2^63: ieq(b, a) with a the nat *)
+Lemma ieq_mixed_l a b : word a -> word b -> a < H64 -> ieq b a = (a =? to_s b).
+Proof. intros Ha Hb Hs. rewrite (ieq_s_ok b a Hb Ha), (to_s_small a) by (unfold word in Ha; lia). apply Z.eqb_sym. Qed.
+Lemma ieq_mixed_r a b : word a -> word b -> b < H64 -> ieq a b = (to_s a =? b).
+Proof. intros Ha Hb Hs. rewrite (ieq_s_ok a b Ha Hb), (to_s_small b) by (unfold word in Hb; lia). reflexivity. Qed.
+Lemma ine_mixed_l a b : word a -> word b -> a < H64 -> ine b a = negb (a =? to_s b).
+Proof. intros. unfold ine. fold (ieq b a). rewrite ieq_mixed_l by assumption. reflexivity. Qed.
+Lemma ine_mixed_r a b : word a -> word b -> b < H64 -> ine a b = negb (to_s a =? b).
+Proof. intros. unfold ine. fold (ieq a b). rewrite ieq_mixed_r by assumption. reflexivity. Qed.
